@@ -302,6 +302,13 @@ impl WebSocketTransport {
                 return Err(DialError::from(e));
             }
 
+            // `client_async_tls` builds a rustls client configuration for `wss://` urls, which panics
+            // when the process has no default crypto provider (none is compiled in by
+            // `tokio-tungstenite`). Keep a provider the application installed; otherwise use `ring`.
+            if url.scheme() == "wss" && rustls_ws::crypto::CryptoProvider::get_default().is_none() {
+                let _ = rustls_ws::crypto::ring::default_provider().install_default();
+            }
+
             Ok((
                 address,
                 tokio_tungstenite::client_async_tls(url, stream)
